@@ -376,7 +376,7 @@ Definition fresh (s : state) (n : node) (m : meth) (args : list arg) (kwargs : l
                  (pins_of (args ++ map snd kwargs))
     | MUnflattenKeys =>
         if truthy (par env "inplace") then VRaise
-        else VTd [([], n_meta n)]
+        else VTd (meta_under s p)
                  (map (fun rl => match l_kind (snd rl) with KTensor => entry_item s p rl | _ => entry_share s p rl end) (leaves_under s p))
                  (pins_of (args ++ map snd kwargs))
     | MDetach => VTd (meta_under s p) (map (entry_share s p) (leaves_under s p)) []
@@ -660,9 +660,9 @@ Definition step (fx : fixes) (hooked : bool) (s : state) (o : op) : state * outc
       | Some old, Some n =>
           match l_kind old with
           | KTensor => (s, RaisedOther)
-          | k =>
+          | KNonTensorStack => (s, RaisedOther)     (* a NonTensorStack is a lazy stack with a lock of its own: not modelled *)
+          | KNonTensorData =>
               if n_memmap n then (s, RaisedOther)                                     (* _SHARED_INPLACE_ERROR *)
-              else if lkind_eqb k KNonTensorStack && node_locked s n then (s, RaisedLock)   (* dest_val[idx] = value on the locked stack *)
               else let s1 := set_leaf s p l in ((if fix_rebind fx then erase_around s1 (parent_of p) else s1), Done)
           end
       | _, _ => (s, NoSuchTarget)
